@@ -8,6 +8,13 @@ N1  single-use temporaries are propagated (`t = E; S[t]` -> `S[E]`) when `t` is 
     follows the store, and it is evaluated exactly once there (not inside a loop body, a nested
     function, a lambda or a comprehension).
 N2  dead stores of constants to names that are never read are dropped (`_unused = None`).
+N3  `if not c: A else: B` is written `if c: B else: A` (both branches present, B not an elif chain).
+N4  an `else` after a branch that always leaves (return / raise / continue / break) is hoisted:
+    `if c: ...; return x  else: REST` -> `if c: ...; return x` followed by REST.
+N5  `if a: if b: X` (no else on either) is written `if a and b: X`.
+N6  `if c: t = A else: t = B` -> `t = A if c else B`; `if c: return A else: return B` -> `return A if c else B`.
+N8  keyword arguments of a call are ordered by name (no `**` splat present): evaluation order of pure
+    argument expressions is irrelevant to every rule.
 
 Line numbers of the surviving nodes are untouched, so reports still point at the real source."""
 
@@ -171,10 +178,91 @@ def _normalize_function(fn) -> int:
     return changed_total
 
 
+def _ends_in_jump(block) -> bool:
+    return bool(block) and isinstance(block[-1], (ast.Return, ast.Raise, ast.Continue, ast.Break))
+
+
+def _single_assign(block):
+    if len(block) == 1 and isinstance(block[0], ast.Assign) and len(block[0].targets) == 1 and isinstance(block[0].targets[0], ast.Name):
+        return block[0]
+    return None
+
+
+def _single_return(block):
+    if len(block) == 1 and isinstance(block[0], ast.Return) and block[0].value is not None:
+        return block[0]
+    return None
+
+
+def _structural(fn) -> int:
+    """N3-N6 on every statement list of fn's own scope, N8 on every call; to a fixpoint."""
+    total = 0
+    for _ in range(6):
+        changed = 0
+        for owner, fld in _blocks(fn):
+            stmts = getattr(owner, fld)
+            i = 0
+            while i < len(stmts):
+                s = stmts[i]
+                if isinstance(s, ast.If):
+                    # N3
+                    if s.orelse and isinstance(s.test, ast.UnaryOp) and isinstance(s.test.op, ast.Not) \
+                            and not (len(s.orelse) == 1 and isinstance(s.orelse[0], ast.If)):
+                        s.test = s.test.operand
+                        s.body, s.orelse = s.orelse, s.body
+                        changed += 1
+                    # N6
+                    a, b = _single_assign(s.body), _single_assign(s.orelse)
+                    if a is not None and b is not None and a.targets[0].id == b.targets[0].id:
+                        new = ast.Assign(targets=a.targets, value=ast.IfExp(test=s.test, body=a.value, orelse=b.value), lineno=s.lineno)
+                        ast.copy_location(new, s)
+                        ast.copy_location(new.value, s)
+                        stmts[i] = new
+                        changed += 1
+                        continue
+                    a, b = _single_return(s.body), _single_return(s.orelse)
+                    if a is not None and b is not None:
+                        new = ast.Return(value=ast.IfExp(test=s.test, body=a.value, orelse=b.value))
+                        ast.copy_location(new, s)
+                        ast.copy_location(new.value, s)
+                        stmts[i] = new
+                        changed += 1
+                        continue
+                    # N4
+                    if s.orelse and _ends_in_jump(s.body) and not (len(s.orelse) == 1 and isinstance(s.orelse[0], ast.If)
+                                                                  and i + 1 < len(stmts)):
+                        rest = s.orelse
+                        s.orelse = []
+                        stmts[i + 1:i + 1] = rest
+                        changed += 1
+                    # N5
+                    if not s.orelse and len(s.body) == 1 and isinstance(s.body[0], ast.If) and not s.body[0].orelse:
+                        inner = s.body[0]
+                        vals = (s.test.values if isinstance(s.test, ast.BoolOp) and isinstance(s.test.op, ast.And) else [s.test]) + \
+                               (inner.test.values if isinstance(inner.test, ast.BoolOp) and isinstance(inner.test.op, ast.And) else [inner.test])
+                        s.test = ast.copy_location(ast.BoolOp(op=ast.And(), values=vals), s.test)
+                        s.body = inner.body
+                        changed += 1
+                        continue
+                i += 1
+        total += changed
+        if not changed:
+            break
+    for n in ast.walk(fn):
+        if isinstance(n, ast.Call) and len(n.keywords) > 1 and all(k.arg is not None for k in n.keywords):
+            names = [k.arg for k in n.keywords]
+            if names != sorted(names):
+                n.keywords = sorted(n.keywords, key=lambda k: k.arg)
+                total += 1
+    return total
+
+
 def normalize_tree(tree: ast.Module) -> int:
     """In-place normalisation of every function of the module; returns the number of rewrites."""
     n = 0
     funcs = [x for x in ast.walk(tree) if isinstance(x, (ast.FunctionDef, ast.AsyncFunctionDef))]
+    for fn in reversed(funcs):
+        n += _structural(fn)
     # inner functions first so that their temporaries are gone before the outer counts are taken
     for fn in reversed(funcs):
         n += _normalize_function(fn)
